@@ -190,6 +190,7 @@ func variants(w *world) []*variant {
 		add("AddChain", w.subX509, both, false),
 		add("AddPreChain", w.subPre, both, false),
 		add("AddPreChain[via precert signing cert]", w.subPreIssuer, both, false),
+		add("AddPreChain[via precert signing cert with several EKUs]", w.subPreIssuer2, one, false),
 		add("Temporal.AddChain[shard0]", w.subX509Old, []*keyCfg{kShard0}, true),
 		add("Temporal.AddChain[shard1]", w.subX509, []*keyCfg{kShard1}, true),
 		add("Temporal.AddPreChain[shard0]", w.subPreOld, []*keyCfg{kShard0}, true),
@@ -1071,7 +1072,7 @@ func (c *checker) sessions(v *variant, kc *keyCfg) []session {
 	}
 	if v.ep == "add-chain" {
 		w := c.w
-		other, okc := map[*submission]*submission{w.subX509: w.subX509Old, w.subPre: w.subPreOld, w.subPreIssuer: w.subPre,
+		other, okc := map[*submission]*submission{w.subX509: w.subX509Old, w.subPre: w.subPreOld, w.subPreIssuer: w.subPre, w.subPreIssuer2: w.subPre,
 			w.subX509Old: w.subX509, w.subPreOld: w.subPre}[v.sub], kc
 		if v.temporal {
 			// the other submission belongs to the other shard of the same client
@@ -1276,6 +1277,7 @@ func TestCheck(t *testing.T) {
 	r.Sample(map[string]any{"method": "GetSTH", "case": "sth:empty-tree sig:foreign-key-same-kind", "outcome": "RspError(200) carrying the body"})
 	c.entryDecoders()
 	c.temporalRoots(t)
+	c.batchSizes()
 	r.Finish()
 }
 
